@@ -10,6 +10,8 @@ REPO = os.environ.get('MATRIX_WT', '/repo')
 if REPO != '/repo':
     subprocess.run(['git', '-C', '/repo', 'worktree', 'add', '--detach', REPO, 'HEAD'], check=True, capture_output=True)
     os.environ['VERIF_REPO'] = REPO
+    os.environ['VERIF_OUT'] = os.environ.get('MATRIX_OUT', '/tmp/matrix_out')   # evidence / replays of these runs are not the committed ones
+    os.makedirs(os.environ['VERIF_OUT'], exist_ok=True)
 assert not subprocess.run(['git', '-C', REPO, 'status', '--short'], capture_output=True, text=True).stdout.strip(), 'repo not clean'
 for d in sorted(glob.glob(os.path.join(HERE, 'seeded', '*'))):
     if not os.path.isdir(d):
@@ -28,7 +30,7 @@ for d in sorted(glob.glob(os.path.join(HERE, 'seeded', '*'))):
     json.dump(meta, open(os.path.join(d, 'meta.json'), 'w'), indent=1)
     rows.append((sid, prop, p.returncode, nviol, failed))
     print(sid, prop, p.returncode, nviol, failed[:4], flush=True)
-subprocess.run(['rm', '-rf', os.path.join(HERE, 'replays')])
+subprocess.run(['rm', '-rf', os.path.join(os.environ.get('VERIF_OUT') or HERE, 'replays')])
 if REPO != '/repo':
     subprocess.run(['git', '-C', '/repo', 'worktree', 'remove', '--force', REPO])
 with open(os.path.join(HERE, 'seeded', 'RESULTS.md'), 'w') as f:
